@@ -910,7 +910,8 @@ class HealSparseMap(object):
                 return np.asarray([], dtype=self.dtype)
 
         if not nest:
-            _pix = hpg.ring_to_nest(self._nside_sparse, pixels)
+            # Ring-ordered pixel numbers are at the resolution they are given in.
+            _pix = hpg.ring_to_nest(self._nside_sparse if nside is None else nside, pixels)
         else:
             _pix = pixels
 
